@@ -101,7 +101,11 @@ class ValuesOfCorrectTypeChecker(ValidationVisitor):
             else None
         )
         if not isinstance(named_type, InputObjectType):
-            self._check_scalar(node)
+            # Object literals are never valid for leaf types (see
+            # value_from_ast); custom scalars' parse_literal cannot be
+            # expected to handle them.
+            if self.type_info.input_type is not None:
+                self._report_bad_value(self.type_info.input_type, node)
             raise SkipNode()
 
         input_fields = [f.name.value for f in node.fields]
